@@ -77,6 +77,9 @@ def apply_item(item, sketches):
             s.update(list(item["keys"]))
 
 
+# set by a check that wants to look at the worker's own sketch objects after each item (C06: draw batches of log sketches)
+observe_hook = None
+
 # set by the cooperative-thread context: a callback takes time, so every call is a point where other processes may run
 yield_hook = None
 
@@ -106,6 +109,8 @@ def process_item(item, *sketches, side=None, **kwargs):
     if mode == "exit":
         os._exit(3)
     apply_item(item, sketches)
+    if observe_hook is not None:
+        observe_hook(sketches)
     if mode == "raise_after":
         if isinstance(item["idx"], int) and item["idx"] % 2:
             raise IndexError  # no arguments
